@@ -13,6 +13,7 @@ import (
 	"path/filepath"
 	"regexp"
 	"sort"
+	"strings"
 	"sync"
 	"time"
 )
@@ -123,25 +124,25 @@ type Check struct {
 	Seed  int64
 	Level string
 
-	mu          sync.Mutex
-	start       time.Time
-	evaluations int64
-	distinct    map[[8]byte]struct{}
-	skipRows    int64
-	samples     []interface{}
-	violations  int
-	reported    int
-	knownHits   map[string]int
-	findings    []Finding
-	states      int64
-	transitions int64
-	traces      int64
-	behaviours  int64
-	exhaustive  bool
-	rule        string
-	assumptions []string
-	extra       map[string]interface{}
-	tlcCmds     []string
+	mu           sync.Mutex
+	start        time.Time
+	evaluations  int64
+	distinct     map[[8]byte]struct{}
+	skipRows     int64
+	samples      []interface{}
+	violations   int
+	reported     int
+	knownHits    map[string]int
+	findings     []Finding
+	states       int64
+	transitions  int64
+	traces       int64
+	behaviours   int64
+	exhaustive   bool
+	rule         string
+	assumptions  []string
+	extra        map[string]interface{}
+	tlcCmds      []string
 	inconclusive string
 	byKind       map[string]int
 	kindExample  map[string]string
@@ -292,7 +293,9 @@ func (c *Check) finish() int {
 	}
 	b, _ := json.MarshalIndent(ev, "", " ")
 	_ = os.MkdirAll(filepath.Join(verifRoot, "evidence"), 0o755)
-	_ = os.WriteFile(filepath.Join(verifRoot, "evidence", c.Prop+".json"), b, 0o644)
+	if strings.HasPrefix(c.Prop, "C") {
+		_ = os.WriteFile(filepath.Join(verifRoot, "evidence", c.Prop+".json"), b, 0o644)
+	}
 	fmt.Printf("%s tier=%s seed=%d: states=%d transitions=%d evaluations=%d distinct=%d behaviours=%d traces=%d violations=%d known=%v wall=%.1fs\n",
 		c.Prop, c.Tier, c.Seed, c.states, c.transitions, c.evaluations, len(c.distinct), c.behaviours, c.traces, c.violations, c.knownHits, time.Since(c.start).Seconds())
 	for k, n := range c.byKind {
